@@ -374,10 +374,11 @@ class Interp:
         for s2, v in pairs:
             if compound:
                 v = sym.op(compound, self.member_value(path, s2, frame, e.get('l')), v)
-            note = None
             r = strip(e['rhs'])
+            from facts import walk as _walk
+            note = {'literal': not any(x.get('k') in ('Call', 'Member') for x in _walk(e['rhs']))}
             if isinstance(r, dict) and r.get('k') == 'Cast' and r.get('style') in ('static', 'c', 'functional'):
-                note = {'cast_to': r['t'], 'member_t': f['t'], 'cast_size': self.type_size(r['t']), 'member_size': f.get('size')}
+                note.update({'cast_to': r['t'], 'member_t': f['t'], 'cast_size': self.type_size(r['t']), 'member_size': f.get('size')})
             if not compound:
                 for (rp, rl, rf) in s2.reads_of:
                     if rp == path:
@@ -452,6 +453,10 @@ class Interp:
             cap = self.container_size(it.path, st).scale(it.elem or 1)
             d = cap - n
             ok = d.is_const() and d.c >= 0
+            if not ok:
+                # a narrowed length only lowers the count: trunc(X) <= X for X >= 0
+                d2 = cap - sym.drop_trunc(n)
+                ok = d2.is_const() and d2.c >= 0 and self.mode == 'write'
             capdesc = '%s.size()*%d = %r' % (fmt_path(it.path), it.elem or 1, cap)
         elif it.target_size is not None:
             ok = n.is_const() and n.c <= it.target_size
@@ -479,8 +484,10 @@ class Interp:
         self.bound_check(it, st, frame, 'B1')
         st.items.append(it)
         chunk = None
-        if self.stream is not None and it.width.is_const() and it.width.c == 0:
-            return [st]
+        if self.stream is not None:
+            w0 = sym.drop_trunc(it.width)
+            if w0.is_const() and w0.c == 0:
+                return [st]
         if self.stream is not None:
             while st.pos < len(self.stream) and self.stream[st.pos].width.is_const() and self.stream[st.pos].width.c == 0:
                 st.pos += 1
@@ -493,7 +500,7 @@ class Interp:
             chunk = self.stream[st.pos]
             st.pos += 1
             st.pairs.append((chunk, it))
-            if chunk.width != it.width:
+            if sym.drop_trunc(chunk.width) != sym.drop_trunc(it.width):
                 st.viol.append({'rule': 'L1', 'key': 'width:' + (fmt_path(it.path) if it.path else 'local'), 'line': it.line,
                                 'file': it.file, 'fn': it.fn,
                                 'what': 'reader consumes %s where the writer emitted %s' % (it.desc(), chunk.desc())})
@@ -550,7 +557,7 @@ class Interp:
                     chunk = self.stream[s2.pos]
                     s2.pos += 1
                     s2.pairs.append((chunk, it))
-                    if chunk.kind != 'pad' or chunk.width != n:
+                    if chunk.kind != 'pad' or sym.drop_trunc(chunk.width) != sym.drop_trunc(n):
                         s2.viol.append({'rule': 'L5' if chunk.kind == 'pad' else 'L7', 'key': 'pad:' + repr(n), 'line': it.line,
                                         'file': it.file, 'fn': it.fn,
                                         'what': 'reader skips %r bytes where the writer emitted %s' % (n, chunk.desc())})
@@ -639,6 +646,14 @@ class Interp:
         if k == 'Cast':
             if e.get('cast') == 'IntegralToBoolean':
                 return [(s2, Lin(1 if t else 0)) for s2, t in self.ev_cond(e, st, frame)]
+            ts, fs = self.type_size(e.get('t')), self.type_size(e.get('from'))
+            if e.get('cast') == 'IntegralCast' and ts in (1, 2) and fs and fs > ts and 'bool' not in (e.get('t') or ''):
+                # narrowing to 8/16 bits: exact unless the operand provably fits (64->32 bit narrowing of container sizes is
+                # treated as exact: containers hold less than 4 GiB)
+                outs = []
+                for s2, v in self.ev(e['sub'], st, frame):
+                    outs.append((s2, v if self.fits(v, 8 * ts) else sym.trunc(v, 8 * ts)))
+                return outs
             return self.ev(e['sub'], st, frame)
         if k == 'Lit':
             if 'v' in e:
@@ -695,6 +710,12 @@ class Interp:
                 if path is None:
                     self.broken('size() on a non-member', e, frame)
                 return [(st, self.container_size(path, st))]
+            if e.get('callee') in ('std::max', 'std::min') and len(e.get('args', [])) == 2:
+                outs = []
+                for s1, a in self.ev(e['args'][0], st, frame):
+                    for s2, b in self.ev(e['args'][1], s1, frame):
+                        outs.append((s2, sym.minmax(e['callee'][5:], a, b)))
+                return outs
             if e.get('calleeInRoot') and e.get('ck') in ('member', 'function'):
                 outs = []
                 for s2, rv in self.call_inline(e, st, frame):
@@ -714,6 +735,16 @@ class Interp:
 
     def _is_pure_const(self, e):
         return True
+
+    def fits(self, v, bits):
+        if v.is_const():
+            return 0 <= v.c < (1 << bits)
+        if v.c == 0 and len(v.t) == 1:
+            (t, k), = v.t.items()
+            b = self.bounds.get(t)
+            if k == 1 and b and b[0] >= 0 and b[1] < (1 << bits):
+                return True
+        return False
 
     # ------------------------------------------------------------------ conditions
     def ev_cond(self, e, st, frame):
